@@ -19,145 +19,231 @@ func init() {
 
 func r06_1(c *Ctx, r *Report) {
 	const rule = "R06.1"
-	r.rule(rule, "The four in-year views use one predicate. GetMonthsInYear, GetDayCount, GetMonth and GetLeapMonth each iterate lunarYear.months; the body of the loop is followed by the evaluator for a month of the object's own year or of the neighbouring year, leap or not, with the requested number or another: the month is admitted (pushed, added to the count, returned) exactly when m.GetYear() == lunarYear.year and the view's own conjunct holds, GetLeapMonth returns the month number without its sign, a month that is not admitted leaves the running result untouched, and the two accumulating views never leave the loop from its body (months 4, leap 4, 12 and leap 12 are followed). Necessary for 'reported leap month and day counts match the table'.")
+	r.rule(rule, "The four in-year views use one predicate. GetMonthsInYear, GetDayCount, GetMonth and GetLeapMonth each go through lunarYear.months — directly, or through an unexported helper (or GetMonthsInYear) that does and is checked the same way; the body of the loop is followed by the evaluator for a month of the object's own year or of the neighbouring year, leap or not, with the requested number or another: the month is admitted (pushed, appended, added to the count, returned) exactly when m.GetYear() == lunarYear.year and the view's own conjunct holds, GetLeapMonth returns the month number without its sign, a month that is not admitted leaves the running result untouched, and the accumulating views never leave the loop from its body (months 4, leap 4, 12 and leap 12 are followed). Necessary for 'reported leap month and day counts match the table'.")
+	checked := map[*ssa.Function]bool{}
 	for _, name := range []string{"GetMonthsInYear", "GetDayCount", "GetMonth", "GetLeapMonth"} {
 		fn := c.Fn(r, rule, "calendar.(*LunarYear)."+name)
 		if fn == nil {
 			continue
 		}
-		construct := fname(fn) + " filters the month table by m.GetYear() == year"
-		iter := false
-		for _, p := range c.eff.Of(fn).paramReads(0) {
-			if p == ".months" {
-				iter = true
+		kind := "accumulate"
+		if name == "GetMonth" || name == "GetLeapMonth" {
+			kind = name
+		}
+		// the collection the view iterates: the month table itself, or the result of a helper on the same object
+		var helper *ssa.Function
+		for _, b := range fn.Blocks {
+			for _, ins := range b.Instrs {
+				call, ok := ins.(*ssa.Call)
+				if !ok || call.Common().StaticCallee() == nil || len(call.Common().Args) == 0 || call.Common().Args[0] != ssa.Value(fn.Params[0]) {
+					continue
+				}
+				h := call.Common().StaticCallee()
+				if h == fn || h.Signature.Recv() == nil || structName(h.Signature.Recv().Type()) != "LunarYear" || h.Signature.Results().Len() != 1 {
+					continue
+				}
+				rt := h.Signature.Results().At(0).Type().String()
+				if strings.Contains(rt, "LunarMonth") && strings.HasPrefix(rt, "[]") || (strings.HasSuffix(rt, "list.List") && fname(h) == "calendar.(*LunarYear).GetMonthsInYear") {
+					helper = h
+				}
 			}
 		}
-		loops, _ := findLoops(fn)
-		if len(loops) != 1 || !iter {
-			r.bad(rule, construct, c.fnPos(fn), fmt.Sprintf("iterates months: %v; loops: %d (undecided = fail)", iter, len(loops)))
-			continue
+		if helper != nil && !checked[helper] && fname(helper) != "calendar.(*LunarYear).GetMonthsInYear" {
+			checked[helper] = true
+			monthsView(c, r, rule, helper, "accumulate", false)
 		}
-		li := loops[0]
-		// a view that iterates the result of its own GetMonthsInYear() sees only months of its year
-		prefiltered := false
-		for _, ins := range li.header.Instrs {
-			phi, ok := ins.(*ssa.Phi)
-			if !ok {
-				break
+		monthsView(c, r, rule, fn, kind, helper != nil)
+	}
+}
+
+// monthsView follows the loop of one view (or filter helper) over the months.
+func monthsView(c *Ctx, r *Report, rule string, fn *ssa.Function, kind string, prefiltered bool) {
+	name := fn.Name()
+	construct := fname(fn) + " filters the month table by m.GetYear() == year"
+	if prefiltered {
+		construct = fname(fn) + " goes through the months of its own year"
+	}
+	iter := false
+	for _, p := range c.eff.Of(fn).paramReads(0) {
+		if p == ".months" {
+			iter = true
+		}
+	}
+	loops, _ := findLoops(fn)
+	if len(loops) != 1 || !iter {
+		r.bad(rule, construct, c.fnPos(fn), fmt.Sprintf("iterates months: %v; loops: %d (undecided = fail)", iter, len(loops)))
+		return
+	}
+	li := loops[0]
+	var entry *ssa.BasicBlock
+	for _, sc := range li.header.Succs {
+		if li.body[sc] {
+			entry = sc
+		}
+	}
+	var problems []string
+	// the scan starts at the first element and moves one element at a time
+	for _, ins := range li.header.Instrs {
+		phi, ok := ins.(*ssa.Phi)
+		if !ok {
+			break
+		}
+		if strings.HasSuffix(phi.Type().String(), "list.Element") {
+			for i, e := range phi.Edges {
+				call, isCall := e.(*ssa.Call)
+				name := ""
+				if isCall && call.Common().StaticCallee() != nil {
+					name = call.Common().StaticCallee().Name()
+				}
+				if li.body[li.header.Preds[i]] {
+					if name != "Next" || call.Common().Args[0] != ssa.Value(phi) {
+						problems = append(problems, "the scan does not advance by exactly one element (e.Next()) per iteration")
+					}
+				} else if name != "Front" {
+					problems = append(problems, "the scan does not start at the first month of the table (Front()): leading months are skipped")
+				}
 			}
-			for _, e := range phi.Edges {
-				if front, ok := e.(*ssa.Call); ok && front.Common().StaticCallee() != nil && front.Common().StaticCallee().Name() == "Front" {
-					if src, ok := front.Common().Args[0].(*ssa.Call); ok && src.Common().StaticCallee() != nil && fname(src.Common().StaticCallee()) == "calendar.(*LunarYear).GetMonthsInYear" && src.Common().Args[0] == ssa.Value(fn.Params[0]) && name != "GetMonthsInYear" {
-						prefiltered = true
+		}
+		if isIntType(phi.Type()) {
+			// a counted or range loop over a slice: counter from 0 (or -1 for range) by +1
+			isCounter := false
+			for i, e := range phi.Edges {
+				if bo, ok := e.(*ssa.BinOp); ok && li.body[li.header.Preds[i]] && bo.X == ssa.Value(phi) {
+					if k, ok := constInt(bo.Y); ok && bo.Op == token.ADD {
+						isCounter = true
+						if k != 1 {
+							problems = append(problems, "the scan advances by more than one element")
+						}
+					}
+				}
+			}
+			if isCounter {
+				for i, e := range phi.Edges {
+					if !li.body[li.header.Preds[i]] {
+						if k, ok := constInt(e); !ok || (k != 0 && k != -1) {
+							problems = append(problems, "the scan does not start at the first element")
+						}
 					}
 				}
 			}
 		}
-		var entry *ssa.BasicBlock
-		for _, sc := range li.header.Succs {
-			if li.body[sc] {
-				entry = sc
-			}
+	}
+	n := 0
+	for _, sameYear := range []bool{true, false} {
+		if prefiltered && !sameYear {
+			continue // such a month is not in the collection this view iterates
 		}
-		var problems []string
-		n := 0
-		for _, sameYear := range []bool{true, false} {
-			for _, mMonth := range []int64{4, -4, 12, -12} {
-				isLeap := mMonth < 0
-				for _, monthEq := range []bool{true, false} {
-					mYear := int64(2020)
-					if !sameYear {
-						mYear = 2019
+		for _, mMonth := range []int64{4, -4, 12, -12} {
+			isLeap := mMonth < 0
+			for _, monthEq := range []bool{true, false} {
+				mYear := int64(2020)
+				if !sameYear {
+					mYear = 2019
+				}
+				asked := mMonth
+				if !monthEq {
+					asked = 7
+				}
+				leaf := func(fr *evalFrame, v ssa.Value) (interface{}, bool) {
+					if fr.parent == nil && len(fn.Params) > 1 && v == ssa.Value(fn.Params[1]) {
+						return asked, true
 					}
-					asked := mMonth
-					if !monthEq {
-						asked = 7
+					if ta, ok := v.(*ssa.TypeAssert); ok && structName(ta.AssertedType) == "LunarMonth" {
+						return absPtr{"m", false}, true
 					}
-					leaf := func(fr *evalFrame, v ssa.Value) (interface{}, bool) {
-						if fr.parent == nil && len(fn.Params) > 1 && v == ssa.Value(fn.Params[1]) {
-							return asked, true
-						}
-						if ta, ok := v.(*ssa.TypeAssert); ok && structName(ta.AssertedType) == "LunarMonth" {
+					if ld, ok := v.(*ssa.UnOp); ok && ld.Op == token.MUL {
+						if _, isIA := ld.X.(*ssa.IndexAddr); isIA && structName(ld.Type()) == "LunarMonth" {
 							return absPtr{"m", false}, true
 						}
-						if rc, f, ok := getterField(c, v); ok {
-							switch f {
-							case "LunarMonth.year":
-								return mYear, true
-							case "LunarMonth.month":
-								return mMonth, true
-							case "LunarMonth.dayCount":
-								return int64(29), true
-							case "LunarYear.year":
-								if ofr, o := fr.origin(rc); ofr.parent == nil && o == ssa.Value(fn.Params[0]) {
-									return int64(2020), true
-								}
+					}
+					if rc, f, ok := getterField(c, v); ok {
+						switch f {
+						case "LunarMonth.year":
+							return mYear, true
+						case "LunarMonth.month":
+							return mMonth, true
+						case "LunarMonth.dayCount":
+							return int64(29), true
+						case "LunarYear.year":
+							if ofr, o := fr.origin(rc); ofr.parent == nil && o == ssa.Value(fn.Params[0]) {
+								return int64(2020), true
 							}
 						}
-						return nil, false
 					}
-					ev := &evaluator{inline: inlineLibrary, leaf: leaf}
-					fr := &evalFrame{fn: fn, phiFrom: map[*ssa.BasicBlock]*ssa.BasicBlock{entry: li.header}}
-					accumulating := name == "GetMonthsInYear" || name == "GetDayCount"
-					res, outcome := ev.runFrame(fr, entry, func(b *ssa.BasicBlock) bool { return b == li.header || (accumulating && !li.body[b]) })
-					if accumulating && strings.HasPrefix(outcome, "stop:") && outcome != fmt.Sprintf("stop:%d", li.header.Index) {
-						problems = append(problems, fmt.Sprintf("the scan ends at month %d although later months of the table (a leap 12th month) can still belong to the year", mMonth))
-						continue
+					return nil, false
+				}
+				ev := &evaluator{inline: inlineLibrary, leaf: leaf}
+				fr := &evalFrame{fn: fn, phiFrom: map[*ssa.BasicBlock]*ssa.BasicBlock{entry: li.header}}
+				accumulating := kind == "accumulate"
+				res, outcome := ev.runFrame(fr, entry, func(b *ssa.BasicBlock) bool { return b == li.header || (accumulating && !li.body[b]) })
+				n++
+				if accumulating && strings.HasPrefix(outcome, "stop:") && outcome != fmt.Sprintf("stop:%d", li.header.Index) {
+					problems = append(problems, fmt.Sprintf("the scan ends at month %d although later months of the table (a leap 12th month) can still belong to the year", mMonth))
+					continue
+				}
+				admitted := false
+				switch {
+				case outcome == "return":
+					admitted = true
+					want4 := mMonth
+					if want4 < 0 {
+						want4 = -want4
 					}
-					n++
-					admitted := false
-					switch {
-					case outcome == "return":
-						admitted = true
-						if name == "GetMonthsInYear" || name == "GetDayCount" {
-							problems = append(problems, fmt.Sprintf("the scan ends at month %d although later months of the table (a leap 12th month) can still belong to the year", mMonth))
-						}
-						want4 := mMonth
-						if want4 < 0 {
-							want4 = -want4
-						}
-						if name == "GetLeapMonth" && (len(res) != 1 || res[0] != interface{}(want4)) {
-							problems = append(problems, fmt.Sprintf("a leap month %d is reported as %v", mMonth, res))
-						}
-						if name == "GetMonth" && (len(res) != 1 || res[0] != interface{}(absPtr{"m", false})) {
-							problems = append(problems, "the month returned is not the admitted one")
-						}
-					case outcome == fmt.Sprintf("stop:%d", li.header.Index):
-						for blk := range fr.phiFrom {
-							for _, ins := range blk.Instrs {
-								if call, ok := ins.(*ssa.Call); ok && call.Common().StaticCallee() != nil && call.Common().StaticCallee().Name() == "PushBack" {
+					if name == "GetLeapMonth" && (len(res) != 1 || res[0] != interface{}(want4)) {
+						problems = append(problems, fmt.Sprintf("a leap month %d is reported as %v", mMonth, res))
+					}
+					if name == "GetMonth" && (len(res) != 1 || res[0] != interface{}(absPtr{"m", false})) {
+						problems = append(problems, "the month returned is not the admitted one")
+					}
+				case outcome == fmt.Sprintf("stop:%d", li.header.Index):
+					for blk := range fr.phiFrom {
+						for _, ins := range blk.Instrs {
+							if call, ok := ins.(*ssa.Call); ok {
+								if callee := call.Common().StaticCallee(); callee != nil && callee.Name() == "PushBack" {
+									admitted = true
+								}
+								if bi, ok := call.Common().Value.(*ssa.Builtin); ok && bi.Name() == "append" {
 									admitted = true
 								}
 							}
 						}
-						for _, ins := range li.header.Instrs {
-							if phi, ok := ins.(*ssa.Phi); ok && isIntType(phi.Type()) && fr.resolve(phi) != ssa.Value(phi) {
-								admitted = true
+					}
+					for _, ins := range li.header.Instrs {
+						phi, ok := ins.(*ssa.Phi)
+						if !ok || !isIntType(phi.Type()) {
+							continue
+						}
+						nv := fr.resolve(phi)
+						if nv == ssa.Value(phi) {
+							continue
+						}
+						// a plain counter (phi + constant) is not a running result
+						if bo, ok := nv.(*ssa.BinOp); ok && bo.X == ssa.Value(phi) {
+							if _, isK := bo.Y.(*ssa.Const); isK {
+								continue
 							}
 						}
-					default:
-						problems = append(problems, "the loop body could not be followed: "+outcome+" "+ev.fail)
-						continue
+						admitted = true
 					}
-					if prefiltered && !sameYear {
-						continue // such a month is not in the list this view iterates (R06.1 on GetMonthsInYear)
-					}
-					want := sameYear
-					switch name {
-					case "GetMonth":
-						want = sameYear && monthEq
-					case "GetLeapMonth":
-						want = sameYear && isLeap
-					}
-					if admitted != want {
-						problems = append(problems, fmt.Sprintf("a month of %s, leap=%v, requested number=%v: admitted=%v, expected %v", map[bool]string{true: "the own year", false: "the neighbouring year"}[sameYear], isLeap, monthEq, admitted, want))
-					}
+				default:
+					problems = append(problems, "the loop body could not be followed: "+outcome+" "+ev.fail)
+					continue
+				}
+				want := sameYear
+				switch kind {
+				case "GetMonth":
+					want = sameYear && monthEq
+				case "GetLeapMonth":
+					want = sameYear && isLeap
+				}
+				if admitted != want {
+					problems = append(problems, fmt.Sprintf("a month of %s, leap=%v, requested number=%v: admitted=%v, expected %v", map[bool]string{true: "the own year", false: "the neighbouring year"}[sameYear], isLeap, monthEq, admitted, want))
 				}
 			}
 		}
-		sort.Strings(problems)
-		r.check(len(problems) == 0 && n >= 8, rule, construct+map[bool]string{true: " (through its own GetMonthsInYear)", false: ""}[prefiltered], c.fnPos(fn), fmt.Sprintf("%d abstract months followed through the loop body; deviations: %v", n, headList(dedupe(problems), 3)))
 	}
+	sort.Strings(problems)
+	r.check(len(problems) == 0 && n >= 8, rule, construct, c.fnPos(fn), fmt.Sprintf("%d abstract months followed through the loop body; deviations: %v", n, headList(dedupe(problems), 3)))
 }
 
 func r06_2(c *Ctx, r *Report) {
